@@ -4051,10 +4051,15 @@ class PartitionTreeBuilder:
                 parts=parts,
                 **partition_opts,
             )
-            leaves = [
+            new_leaves = [
                 tree.contract_nodes(group, check=check, optimize=sub_optimize)
                 for group in separate(leaves, membership)
             ]
+            if len(new_leaves) >= len(leaves):
+                # no groups were merged, e.g. nothing is connected, so the
+                # partitioner can't make progress - contract all remaining
+                break
+            leaves = new_leaves
 
         if len(leaves) > 1:
             tree.contract_nodes(leaves, check=check, optimize=sub_optimize)
